@@ -5,6 +5,7 @@ mod c04;
 mod c05;
 mod c18;
 mod gen;
+mod interp;
 mod runner;
 mod util;
 mod words;
@@ -23,6 +24,7 @@ fn main() {
         "word-ops" => words::ops(rest),
         "c09-spec" => words::c09(rest),
         "render-all" => words::render_all(rest),
+        "interp-ops" => interp::ops(rest),
         "runner" => runner::main(rest),
         "gen-stats" => runner::gen_stats(rest),
         _ => { eprintln!("unknown command {cmd:?}"); 2 }
